@@ -58,10 +58,17 @@ def run_checks(d, ids):
     ev = tempfile.mkdtemp(prefix="svgdx-variant-ev-")
     env = dict(os.environ, SVGDX_SA_EVIDENCE_DIR=ev, SVGDX_SA_REPLAY_DIR=ev)
     try:
+        p = subprocess.run([sys.executable, os.path.join(VERIF, "policy", "run_many.py"), d] + list(ids), capture_output=True, text=True, env=env)
+        for line in p.stdout.splitlines():
+            if " rc=" in line and line.split(" ", 1)[0] in ids:
+                pid, rest = line.split(" ", 1)
+                rc = int(rest.split()[0].split("=")[1])
+                tail = rest.split(" ", 1)[1].strip() if " " in rest else ""
+                keys = [k.strip() for k in tail.split(" ; ") if k.strip()] if rc == 1 else []
+                res[pid] = (rc, keys, tail if rc not in (0, 1) else "")
         for pid in ids:
-            p = subprocess.run([os.path.join(VERIF, "check"), pid, "quick", "--repo", d], capture_output=True, text=True, env=env)
-            keys = [l.split("key=")[1].strip() for l in p.stdout.splitlines() if l.strip().startswith("rule=") and "key=" in l]
-            res[pid] = (p.returncode, keys, p.stdout if p.returncode not in (0, 1) else "")
+            if pid not in res:
+                res[pid] = (2, [], (p.stderr or p.stdout)[-1500:])
     finally:
         shutil.rmtree(ev, ignore_errors=True)
     return res
